@@ -16,7 +16,7 @@
      union_update: the operand's entries do not contradict the receiver's (a well-formed result exists);
      intersection/difference_update: distinct keys;   filtered: mask of the receiver's length;
      sliced: no argument, or one order per higher axis, ints and lists of DISTINCT columns within the extent;
-     collapsed: 2-D receiver, non-empty precedence list of DISTINCT values within a NumPy integer dtype;
+     collapsed: 2-D receiver, non-empty precedence list (repeated values allowed) within a NumPy integer dtype;
      column_stack: every input well-formed, 1-D or 2-D, same row count;   all others: none.
    "Operands other than the receiver are unchanged" and "copies share no storage" are facts about the heap and
    are covered by C17 and the harness (the model is functional).
@@ -469,7 +469,7 @@ Example C06_nonvacuous_args :
   other_ok ex2 [((1, [0]), [2; 3]); ((4, [1]), [0])] /\
   set_if_ok ex2 (1, [0]) [0; 3] /\
   orders_ok [OList [2; 0]] (hshape ex2) /\ orders_ok [OInt 1] (hshape ex2) /\
-  collapse_ok ex2 [7; -1; 1] /\
+  collapse_ok ex2 [7; -1; 1] /\ collapse_ok ex2 [0; 1; 2; 1] /\
   cs_args_ok [ex2; ex2] /\ cs_args_ok [ex1; ex1].
 Proof.
   split; [apply wf_b_spec; vm_compute; reflexivity|].
@@ -483,9 +483,20 @@ Proof.
   split; [apply orders_ok_b_sound; vm_compute; reflexivity|].
   split; [apply orders_ok_b_sound; vm_compute; reflexivity|].
   split; [apply HistoryB.collapse_ok_b_sound; vm_compute; reflexivity|].
+  split; [apply HistoryB.collapse_ok_b_sound; vm_compute; reflexivity|].
   split; apply cs_args_ok_b_sound; vm_compute; reflexivity.
 Qed.
 Print Assumptions C06_nonvacuous_args.
+
+(* a precedence list with a repeated value (the witness of defect F23): each row obtains the FIRST listed value present *)
+Example C06_collapsed_repeated :
+  let idx := {| entries := [((1, [0]), [0; 1]); ((1, [1]), [1]); ((2, [0]), [2])]; common := 0; nrows := 4; hshape := [2] |} in
+  wf_b idx = true /\ dense_rows idx = [[1; 0]; [1; 1]; [2; 0]; [0; 0]] /\
+  match collapsed idx [0; 1; 2; 1] None with Ok out => dense_rows out = [[0]; [1]; [0]; [0]] | Err _ => False end /\
+  match collapsed idx [1; 0; 2; 1] None with Ok out => dense_rows out = [[1]; [1]; [0]; [0]] | Err _ => False end /\
+  match collapsed idx [5; 0; 5] (Some [(2, 9)]) with Ok out => dense_rows out = [[0]; [5]; [0]; [0]] | Err _ => False end.
+Proof. vm_compute. repeat split; reflexivity. Qed.
+Print Assumptions C06_collapsed_repeated.
 
 Example C06_nonvacuous_history : WF ex2 /\ hist_ok ex2 ex_hist /\ length ex_hist = 17%nat.
 Proof.
